@@ -1,8 +1,8 @@
 (* request handlers of the follower resync model driver.
-   check_some <pinned|repaired> <csz> <F> <L> : F, L = comma separated records ("-" = empty file); a record is a '+'-joined list of
+   check_some <pinned|fixed1|repaired> <csz> <F> <L> : F, L = comma separated records ("-" = empty file); a record is a '+'-joined list of
    segments  h<hex> (literal bytes)  z<n> (n bytes 0)  o<n> (n bytes 1).
    MD5 is instantiated by the identity (digest = the block itself), which is injective as the model assumes.
-   reply: pos=<p> action=<small|startover|intact|truncate:<p>:<keep>|error|fuel> probes=<pos:match|...> *)
+   reply: pos=<p> action=<small|startover|intact|truncate:<p>:<keep>|error|fuel> probes=<pos:size:match|...> *)
 open Model
 
 let rec rep x n acc = if n <= 0 then acc else rep x (n - 1) (x :: acc)
@@ -26,9 +26,9 @@ let handle (toks : Stdlib.String.t list) : Stdlib.String.t =
   match toks with
   | ["check_some"; md; csz; f; l] ->
       let f = file_of f and l = file_of l in
-      let (res, probes) = check_some (fun b -> b) bytes_eqb (Conv.z_of_int (int_of_string csz)) (if md = "pinned" then Pinned else Repaired) f (flen f) l in
-      let ps = Stdlib.String.concat "|" (Stdlib.List.map (fun (p, m) ->
-        Printf.sprintf "%d:%s" (Conv.int_of_z p) (if m then "match" else "mismatch")) probes) in
+      let (res, probes) = check_some (fun b -> b) bytes_eqb (Conv.z_of_int (int_of_string csz)) (match md with "pinned" -> Pinned | "fixed1" -> Fixed1 | _ -> Repaired) f (flen f) l in
+      let ps = Stdlib.String.concat "|" (Stdlib.List.map (fun ((p, sz), m) ->
+        Printf.sprintf "%d:%d:%s" (Conv.int_of_z p) (Conv.int_of_z sz) (if m then "match" else "mismatch")) probes) in
       let (pos, act) = (match res with
         | CSStartOverSmall -> (0, "small")
         | CSStartOver -> (0, "startover")
